@@ -8,4 +8,5 @@ pub mod emit;
 pub mod interp;
 pub mod pgen;
 pub mod variants;
+pub mod watch;
 pub mod precheck;
